@@ -285,6 +285,61 @@ def random_bond_case(rng):
     return {"n": n, "terms": terms, "kind": kind}
 
 
+DEC_SMALL = [(1, 10), (2, 10), (3, 10), (7, 100), (1, 3), (2, 7), (3, 100), (11, 100), (1, 6), (13, 50), (1, 5), (3, 20)]
+DEC_LARGE = [(1, 1), (3, 2), (2, 1), (7, 5), (11, 10), (3, 1), (5, 3), (13, 10)]
+
+
+def decimal_bond_case(rng):
+    """operator with non-dyadic rational coefficients [num, den]; some strings carry groups a + b - (a+b)
+    (or a + b + c - (a+b+c)) that cancel exactly over Q but in general not in binary64.
+    Every cancelling summand has |value| <= 0.3 and at least one surviving coefficient is >= 1, so the
+    float residue (<= ~2e-16) is far below the package's relative pruning threshold 1e-15 * max|factor|."""
+    n = rng.randint(2, 6)
+    k = rng.randint(1, 4)
+    alpha = [0] + rng.sample(range(1, NSYM), k)
+    rand_string = lambda: tuple(rng.choice(alpha) for _ in range(n))
+    terms = []
+    survivors = set()
+    for i in range(rng.randint(1, 8)):
+        t = rand_string()
+        survivors.add(t)
+        c = rng.choice(DEC_LARGE) if i == 0 else rng.choice(DEC_LARGE + DEC_SMALL)
+        sign = -1 if (i > 0 and rng.random() < 0.3) else 1
+        terms.append([list(t), [sign * c[0], c[1]]])
+    n_groups = rng.randint(1, 4)
+    for _ in range(n_groups):
+        t = rand_string()
+        if rng.random() < 0.8:
+            tries = 0
+            while t in survivors and tries < 20:        # mostly strings that are NOT part of the operator
+                t = rand_string()
+                tries += 1
+        parts = [rng.choice(DEC_SMALL) for _ in range(rng.choice([2, 2, 3]))]
+        from fractions import Fraction
+        tot = sum(Fraction(a, b) for a, b in parts)
+        if tot > Fraction(3, 10):                       # keep every summand <= 0.3 in magnitude
+            parts = [(1, 10), (2, 10)]
+            tot = Fraction(3, 10)
+        sgn = rng.choice([1, -1])
+        for a, b in parts:
+            terms.append([list(t), [sgn * a, b]])
+        terms.append([list(t), [-sgn * tot.numerator, tot.denominator]])
+    rng.shuffle(terms)
+    if all(float(abs(c[0])) / c[1] < 1 for _, c in terms):
+        terms.append([list(rand_string()), [1, 1]])
+    inexact = 0
+    acc = {}
+    for t, c in terms:
+        acc[tuple(t)] = acc.get(tuple(t), 0.0) + c[0] / c[1]
+    from fractions import Fraction as F
+    ex = {}
+    for t, c in terms:
+        ex[tuple(t)] = ex.get(tuple(t), F(0)) + F(c[0], c[1])
+    inexact = sum(1 for t in ex if ex[t] == 0 and acc[t] != 0.0)
+    return {"n": n, "terms": terms, "kind": "decimal", "float_inexact_cancellations": inexact,
+            "exact_cancellations": sum(1 for t in ex if ex[t] == 0)}
+
+
 def chunks(xs, k):
     return [xs[i:i + k] for i in range(0, len(xs), k)]
 
@@ -541,11 +596,16 @@ def run(ctx):
     # ---- bond-dimension oracle (always)
     n_bond = 150 if quick else 1500
     bcases = [random_bond_case(rng) for _ in range(n_bond)]
+    n_dec = 150 if quick else 1500
+    bcases += [decimal_bond_case(rng) for _ in range(n_dec)]
     nb = 3 if quick else 12
-    bres, berr = run_impl_batches(ctx, "c20_bond.py", [{"cases": part, "algos": ALGOS} for part in chunks(bcases, (n_bond + nb - 1) // nb)], nb)
+    bres, berr = run_impl_batches(ctx, "c20_bond.py", [{"cases": part, "algos": ALGOS} for part in chunks(bcases, (len(bcases) + nb - 1) // nb)], nb)
     if berr is not None:
         flag("harness-impl", {"what": "bond runner failed", "out": berr})
-    bond_stats = {"operators": 0, "cuts": 0, "cuts_where_cover_beats_both_sides": 0, "max_bond": 0}
+    bond_stats = {"operators": 0, "cuts": 0, "cuts_where_cover_beats_both_sides": 0, "max_bond": 0,
+                  "decimal_operators": n_dec,
+                  "strings_cancelling_exactly": sum(c.get("exact_cancellations", 0) for c in bcases),
+                  "of_which_nonzero_in_binary64": sum(c.get("float_inexact_cancellations", 0) for c in bcases)}
     bond_bad = []
     if bres is not None:
         for c, r in zip(bcases, bres):
@@ -617,7 +677,7 @@ def run(ctx):
         b0 = bond_bad[0]
         repro = src + "\nr = run_case(%r, %r)\nprint(r)\nbd = r['bd'].get(%r)\n" % (b0["case"], [b0["algo"]], b0["algo"]) + \
             "de = r['dense_err'].get(%r)\nsys.exit(1 if (bd != r['exp'] or r['err'] or (de is not None and de > 1e-9)) else 0)\n" % (b0["algo"],)
-        ctx.violation("bond-dims", "oracle: Mpo(...).bond_dims differs from the brute-force minimum cover of the term-incidence matrix at some cut (or exceeds the number of distinct left/right parts, or the dense operator is wrong)",
+        ctx.violation("bond-dims", "oracle: Mpo(...).bond_dims differs from the brute-force minimum cover of the (exactly merged) term-incidence matrix at some cut (or exceeds the number of distinct left/right parts, or the dense operator is wrong)",
                       {"count": len(bond_bad), "first": bond_bad[:3]}, found=True, repro=repro)
 
     ctx.notes.append("witness validity: %d SciPy matchings checked by valid_matching, failures: %d" % (witness_checked, len(bad.get("witness-invalid", []))))
@@ -628,4 +688,4 @@ def run(ctx):
             "samples": samples[:3], "exhaustive": True,
             "exhaustive_scope": "all %d adjacency lists with 1..%d rows over V={0,1,2,3} (= all bipartite graphs up to %dx4 up to trailing isolated V vertices, which the adjacency-list format cannot express)" % (n_exh, 3 if quick else 4, 3 if quick else 4),
             "input_distribution": hist, "bond_oracle": bond_stats,
-            "cases": {"exhaustive": n_exh, "random": n_rand, "degraded_witness": n_inj, "malformed_witness": n_mal, "operators": n_bond}}
+            "cases": {"exhaustive": n_exh, "random": n_rand, "degraded_witness": n_inj, "malformed_witness": n_mal, "operators": n_bond, "decimal_operators": n_dec}}
